@@ -411,26 +411,56 @@ pub fn compare_reports(pred: &Pred, run: &Run) -> Option<Diff> {
             });
         }
     }
-    // facts the Unexpected messages have to contain
-    let mut pool: Vec<&Report> = held.iter().copied().filter(|r| matches!(r.kind, RKind::Unexpected { .. })).collect();
-    for r in &pred.reports {
-        if let refmodel::interp::PKind::Unexpected { facts, class } = &r.kind {
-            let pos = pool.iter().position(|o| {
-                o.loc == r.loc && matches!(&o.kind, RKind::Unexpected { msg } if facts.iter().all(|f| msg.contains(f.as_str())))
-            });
-            match pos {
-                Some(i) => {
-                    pool.swap_remove(i);
+    // facts the Unexpected messages have to contain: there must be a one-to-one assignment of the
+    // predicted Unexpected reports to observed ones at the same location whose message states the facts
+    let pool: Vec<&Report> = held.iter().copied().filter(|r| matches!(r.kind, RKind::Unexpected { .. })).collect();
+    let preds: Vec<(&Path, &Vec<String>, &'static str)> = pred
+        .reports
+        .iter()
+        .filter_map(|r| if let refmodel::interp::PKind::Unexpected { facts, class } = &r.kind { Some((&r.loc, facts, *class)) } else { None })
+        .collect();
+    fn assign(i: usize, preds: &[(&Path, &Vec<String>, &'static str)], pool: &[&Report], used: &mut Vec<bool>, budget: &mut u32) -> bool {
+        if i == preds.len() {
+            return true;
+        }
+        for (j, o) in pool.iter().enumerate() {
+            if used[j] || o.loc != *preds[i].0 {
+                continue;
+            }
+            let ok = matches!(&o.kind, RKind::Unexpected { msg } if preds[i].1.iter().all(|f| msg.contains(f.as_str())));
+            if ok {
+                if *budget == 0 {
+                    return true; // give up searching: never turn a search limit into a violation
                 }
-                None => {
-                    return Some(Diff {
-                        rule: "unexpected-report-does-not-state-the-facts",
-                        detail: format!("no `Unexpected` report at {:?} mentions {:?} (class {class})", render_path(&r.loc), facts),
-                        loc: r.loc.clone(),
-                    })
+                *budget -= 1;
+                used[j] = true;
+                if assign(i + 1, preds, pool, used, budget) {
+                    return true;
                 }
+                used[j] = false;
             }
         }
+        false
+    }
+    let mut used = vec![false; pool.len()];
+    let mut budget = 20_000u32;
+    if !assign(0, &preds, &pool, &mut used, &mut budget) {
+        // name the first prediction no observed message satisfies on its own, if any
+        for (loc, facts, class) in &preds {
+            let any = pool.iter().any(|o| o.loc == **loc && matches!(&o.kind, RKind::Unexpected { msg } if facts.iter().all(|f| msg.contains(f.as_str()))));
+            if !any {
+                return Some(Diff {
+                    rule: "unexpected-report-does-not-state-the-facts",
+                    detail: format!("no `Unexpected` report at {:?} mentions {:?} (class {class})", render_path(loc), facts),
+                    loc: (*loc).clone(),
+                });
+            }
+        }
+        return Some(Diff {
+            rule: "unexpected-report-does-not-state-the-facts",
+            detail: "the Unexpected reports cannot be matched one-to-one with the faults whose facts they have to state".into(),
+            loc: preds.first().map(|p| p.0.clone()).unwrap_or_default(),
+        });
     }
     None
 }
@@ -707,4 +737,194 @@ pub fn replay(ctx: &Ctx, reg: &Registry, path: &str) -> i32 {
 
 pub fn shard_of(i: u64, shard: usize, n: usize) -> bool {
     (i % n as u64) as usize == shard
+}
+
+// ------------------------------------------------------------------------------------------------
+// systematic structural mutations of a payload (faults at EVERY position, one at a time)
+// ------------------------------------------------------------------------------------------------
+pub fn all_paths(p: &Ov) -> Vec<Path> {
+    fn rec(p: &Ov, cur: &mut Path, out: &mut Vec<Path>) {
+        out.push(cur.clone());
+        match p {
+            Ov::Seq(v) => {
+                for (i, x) in v.iter().enumerate() {
+                    cur.push(Step::Index(i));
+                    rec(x, cur, out);
+                    cur.pop();
+                }
+            }
+            Ov::Map(m) => {
+                for (k, x) in m {
+                    cur.push(Step::Key(k.clone()));
+                    rec(x, cur, out);
+                    cur.pop();
+                }
+            }
+            _ => {}
+        }
+    }
+    let mut out = vec![];
+    rec(p, &mut vec![], &mut out);
+    out
+}
+
+pub fn replace_at(p: &Ov, path: &[Step], new: &Ov) -> Ov {
+    edit_at(p, path, &|_| new.clone())
+}
+
+pub fn edit_at(p: &Ov, path: &[Step], f: &dyn Fn(&Ov) -> Ov) -> Ov {
+    if path.is_empty() {
+        return f(p);
+    }
+    match (p, &path[0]) {
+        (Ov::Seq(v), Step::Index(i)) => Ov::Seq(v.iter().enumerate().map(|(j, x)| if j == *i { edit_at(x, &path[1..], f) } else { x.clone() }).collect()),
+        (Ov::Map(m), Step::Key(k)) => {
+            let mut done = false;
+            Ov::Map(
+                m.iter()
+                    .map(|(kk, x)| {
+                        if kk == k && !done {
+                            done = true;
+                            (kk.clone(), edit_at(x, &path[1..], f))
+                        } else {
+                            (kk.clone(), x.clone())
+                        }
+                    })
+                    .collect(),
+            )
+        }
+        _ => p.clone(),
+    }
+}
+
+pub fn intruders() -> Vec<Ov> {
+    vec![
+        Ov::Null,
+        Ov::Bool(true),
+        Ov::Int(70000),
+        Ov::Neg(-70000),
+        Ov::float(1.5),
+        Ov::str("zz"),
+        Ov::Seq(vec![Ov::Int(1)]),
+        Ov::Map(vec![("q".into(), Ov::Int(1))]),
+    ]
+}
+
+/// Every single structural mutation of `base`: an intruder of each kind at every position; for every
+/// sequence: element removed / duplicated at every index, adjacent elements swapped, one appended;
+/// for every object: each member removed, members rotated, a member with an odd key added.
+pub fn mutations(base: &Ov) -> Vec<(&'static str, Ov)> {
+    let mut out = vec![];
+    for path in all_paths(base) {
+        for intr in intruders() {
+            out.push(("intruder", replace_at(base, &path, &intr)));
+        }
+        let node = resolve(base, &path).unwrap();
+        match node {
+            Ov::Seq(v) => {
+                for i in 0..v.len() {
+                    out.push(("seq-remove", edit_at(base, &path, &|n| if let Ov::Seq(v) = n { let mut v = v.clone(); v.remove(i); Ov::Seq(v) } else { n.clone() })));
+                    out.push(("seq-duplicate", edit_at(base, &path, &|n| if let Ov::Seq(v) = n { let mut v = v.clone(); let e = v[i].clone(); v.insert(i, e); Ov::Seq(v) } else { n.clone() })));
+                    if i + 1 < v.len() {
+                        out.push(("seq-swap", edit_at(base, &path, &|n| if let Ov::Seq(v) = n { let mut v = v.clone(); v.swap(i, i + 1); Ov::Seq(v) } else { n.clone() })));
+                    }
+                }
+                out.push(("seq-append", edit_at(base, &path, &|n| if let Ov::Seq(v) = n { let mut v = v.clone(); v.push(Ov::Int(3)); Ov::Seq(v) } else { n.clone() })));
+                out.push(("seq-empty", replace_at(base, &path, &Ov::Seq(vec![]))));
+            }
+            Ov::Map(m) => {
+                for i in 0..m.len() {
+                    out.push(("map-remove", edit_at(base, &path, &|n| if let Ov::Map(m) = n { let mut m = m.clone(); m.remove(i); Ov::Map(m) } else { n.clone() })));
+                }
+                if m.len() > 1 {
+                    out.push(("map-rotate", edit_at(base, &path, &|n| if let Ov::Map(m) = n { let mut m = m.clone(); m.rotate_left(1); Ov::Map(m) } else { n.clone() })));
+                }
+                for (tag, k) in [("map-add-odd-key", "not a key"), ("map-add-numeric-key", "999999"), ("map-add-empty-key", "")] {
+                    if !m.iter().any(|(kk, _)| kk == k) {
+                        out.push((tag, edit_at(base, &path, &|n| if let Ov::Map(m) = n { let mut m = m.clone(); m.push((k.to_string(), Ov::Int(1))); Ov::Map(m) } else { n.clone() })));
+                    }
+                }
+                out.push(("map-empty", replace_at(base, &path, &Ov::Map(vec![]))));
+            }
+            _ => {}
+        }
+    }
+    out
+}
+
+/// A fault-free payload for the subject (structurally valid; user conversions may still fail).
+pub fn valid_case(reg: &Registry, s: &dyn Subject, seed: u64, i: u64, max_len: usize) -> Ov {
+    let rng = Rng::derive(seed, vcore::evidence::hash64(s.name()), 7_000_000 + i);
+    let opts = GenOpts { fault_pm: 0, max_len, extra_key_pm: 0, ..Default::default() };
+    let mut g = Gen::new(&reg.defs, rng, opts);
+    g.payload(s.ty(), 0)
+}
+
+/// Full model comparison of one keep-going run; returns the first disagreement of the selected aspects.
+pub struct Aspects {
+    pub value: bool,
+    pub reports: bool,
+    pub handovers: bool,
+    pub examined: bool,
+    pub calls: bool,
+}
+
+pub fn model_check(reg: &Registry, s: &dyn Subject, p: &Ov, src: Source, run: &Run, a: &Aspects) -> Option<Diff> {
+    // the serde_json source enumerates members sorted by key; the model follows the source's order
+    let seen = if src == Source::Json { Ov::from_json(&p.to_json()) } else { p.clone() };
+    let pred = refmodel::interp(&reg.defs, s.ty(), &seen);
+    if a.value {
+        if let Some(d) = compare_value(&pred, run) {
+            return Some(d);
+        }
+    }
+    if a.reports {
+        if let Some(d) = compare_reports(&pred, run) {
+            return Some(d);
+        }
+    }
+    if a.handovers {
+        if let Some(d) = compare_handovers(&pred, run) {
+            return Some(d);
+        }
+    }
+    if a.examined {
+        if let Some(d) = compare_examined(&pred, run) {
+            return Some(d);
+        }
+    }
+    if a.calls {
+        if let Some(d) = compare_calls(&pred, run) {
+            return Some(d);
+        }
+    }
+    None
+}
+
+/// Run one keep-going case through a source, account for it, compare with the model, record a violation.
+#[allow(clippy::too_many_arguments)]
+pub fn model_case(acc: &mut Acc, reg: &Registry, prop: &str, s: &dyn Subject, case: &Case, src: Source, a: &Aspects) -> Run {
+    let run = run_case(s, &case.payload, src, Script::Continue);
+    account(acc, s, case, &run);
+    if matches!(run.outcome, Outcome::Panic(_)) {
+        acc.count("panics_seen_(reported_by_C12)");
+        return run;
+    }
+    if let Some(d) = model_check(reg, s, &case.payload, src, &run, a) {
+        let at = ctor_at(reg, s, &case.payload, &d.loc);
+        let pred = refmodel::interp(&reg.defs, s.ty(), &case.payload);
+        acc.violation(
+            format!("{prop}/{}/{}", d.rule, at),
+            d.rule,
+            witness(
+                s,
+                &case.payload,
+                src,
+                &Script::Continue,
+                &run,
+                json!({"what": d.detail, "type_at_location": at, "model_value": pred.value.as_ref().map(|v| v.show()), "model_reports": pred.reports.iter().map(|r| format!("{} @{:?}", r.kind.digest(), render_path(&r.loc))).collect::<Vec<_>>()}),
+            ),
+        );
+    }
+    run
 }
